@@ -6,8 +6,10 @@ and transcription level)
 namespace Restic.Proofs.C28
 open Restic.Model.Filter
 
-/-- oracle law G1: the single-component wildcard accepts every component -/
-def G1 (glob : Glob) : Prop := ∀ c, glob ['*'] c = some true
+/-- oracle law G1: the single-component wildcard is well-formed and accepts every component
+    that contains no separator, i.e. every component except the root marker "/" of an absolute
+    path (`filepath.Match("*", "/")` is false) -/
+def G1 (glob : Glob) : Prop := ∀ c, glob ['*'] c = some (decide ('/' ∉ c))
 
 /-- no part of the pattern is malformed for the glob oracle (what `ValidatePatterns` checks) -/
 def NoErr (glob : Glob) (parts : List Part) : Prop := ∀ p ∈ parts, ∀ c, partMatch glob p c ≠ none
